@@ -96,18 +96,42 @@ sites! {
 
 #[allow(clippy::declare_interior_mutable_const)]
 const ZERO: AtomicU64 = AtomicU64::new(0);
-static COUNTS: [AtomicU64; N_SITES] = [ZERO; N_SITES];
+
+// The process-wide counters are sharded (one cache-line aligned shard per group of threads), so that many
+// threads hitting the same site do not contend for one cache line.
+const N_SHARDS: usize = 64;
+
+#[repr(align(128))]
+struct Shard([AtomicU64; N_SITES]);
+
+#[allow(clippy::declare_interior_mutable_const)]
+const SHARD_INIT: Shard = Shard([ZERO; N_SITES]);
+static COUNTS: [Shard; N_SHARDS] = [SHARD_INIT; N_SHARDS];
+static NEXT_SHARD: AtomicU64 = AtomicU64::new(0);
 
 thread_local!(
     static OP_MASK: Cell<u64> = const { Cell::new(0) };
     static OP_MODE: Cell<u8> = const { Cell::new(0xff) };
+    static SHARD: Cell<usize> = const { Cell::new(usize::MAX) };
 );
+
+#[inline]
+fn shard() -> usize {
+    SHARD.with(|s| {
+        let mut i = s.get();
+        if i == usize::MAX {
+            i = (NEXT_SHARD.fetch_add(1, Ordering::Relaxed) as usize) % N_SHARDS;
+            s.set(i);
+        }
+        i
+    })
+}
 
 /// Record that the calling thread passed hook site `site`.
 #[inline]
 pub fn hit(site: u8) {
     OP_MASK.with(|m| m.set(m.get() | (1_u64 << site)));
-    COUNTS[site as usize].fetch_add(1, Ordering::Relaxed);
+    COUNTS[shard()].0[site as usize].fetch_add(1, Ordering::Relaxed);
 }
 
 /// Record `n` (if > 0) loop iterations: hits `site_once` for n == 1 and
@@ -142,8 +166,10 @@ pub fn take_op_trace() -> (u64, u8) {
 #[must_use]
 pub fn snapshot() -> [u64; N_SITES] {
     let mut res = [0_u64; N_SITES];
-    for (i, c) in COUNTS.iter().enumerate() {
-        res[i] = c.load(Ordering::Relaxed);
+    for sh in COUNTS.iter() {
+        for (i, c) in sh.0.iter().enumerate() {
+            res[i] += c.load(Ordering::Relaxed);
+        }
     }
     res
 }
